@@ -10,6 +10,7 @@ NOT decided: byte identity of the inputs beyond "no write sink on an input path"
 outputs, an explicitly given output directory that equals the input directory.
 """
 import ast
+import re
 
 from .. import analysis
 from ..astutil import calls_in, call_name, where, kw, local_assignments, atoms_at
@@ -443,8 +444,46 @@ def _direct_globs(fnode, name, x=None, module=None):
     return out
 
 
+def _keyed_globs(f, dname, key, depth=0):
+    """glob patterns whose matches end up under `key` of the local dictionary `dname` of f: the display it is created with, item stores,
+    <d>[key].extend(...) / +=, and - when the dictionary is the result of a module level helper - the same in that helper"""
+    out = set()
+    x = Expander(f, only_locations=False)
+    helpers = _glob_helpers(f.node, f.module)
+    slot = "%s[%r]" % (dname, key)
+    for n in walk_no_nested(f.node):
+        if isinstance(n, ast.Assign) and len(n.targets) == 1:
+            t, v = n.targets[0], n.value
+            if isinstance(t, ast.Name) and t.id == dname:
+                if isinstance(v, ast.Dict):
+                    for k0, v0 in zip(v.keys, v.values):
+                        if isinstance(k0, ast.Constant) and k0.value == key:
+                            out |= set(c.args[0].value for c in calls_in(v0) if _is_glob_call(c, x, helpers))
+                elif isinstance(v, ast.Call) and isinstance(v.func, ast.Name) and v.func.id in f.module.functions and depth < 2:
+                    h = f.module.functions[v.func.id]
+                    for r in walk_no_nested(h.node):
+                        if isinstance(r, ast.Return) and isinstance(r.value, ast.Name):
+                            out |= _keyed_globs(h, r.value.id, key, depth + 1)
+                        elif isinstance(r, ast.Return) and isinstance(r.value, ast.Dict):
+                            for k0, v0 in zip(r.value.keys, r.value.values):
+                                if isinstance(k0, ast.Constant) and k0.value == key:
+                                    hx = Expander(h, only_locations=False)
+                                    out |= set(c.args[0].value for c in calls_in(v0) if _is_glob_call(c, hx, _glob_helpers(h.node, h.module)))
+            elif unparse(t) == slot:
+                out |= set(c.args[0].value for c in calls_in(v) if _is_glob_call(c, x, helpers))
+        if isinstance(n, ast.AugAssign) and unparse(n.target) == slot:
+            out |= set(c.args[0].value for c in calls_in(n.value) if _is_glob_call(c, x, helpers))
+        if isinstance(n, ast.Expr) and isinstance(n.value, ast.Call) and isinstance(n.value.func, ast.Attribute) and n.value.func.attr in ("extend", "append") \
+                and unparse(n.value.func.value) == slot:
+            out |= set(c.args[0].value for c in calls_in(n.value) if _is_glob_call(c, x, helpers))
+    return out
+
+
 def _list_globs(f, name, depth=0):
     """glob patterns whose matches end up in list `name` of function f (through tuple results of module level helpers)."""
+    m = re.match(r"^(\w+)\[(['\"])(\w+)\2\]$", name)
+    if m:
+        return _keyed_globs(f, m.group(1), m.group(3))
     out = _direct_globs(f.node, name, Expander(f, only_locations=False), f.module)
     if depth > 2:
         return out
